@@ -165,6 +165,74 @@ type gen struct {
 	cases  []*Case
 	mode   string // c03 | c06
 	fk     [2]int // forced source kinds of the next scalar case (-1 = by index / random)
+	// forced EXEC mask / structured address pattern of the next vector case (nil / 0 = seeded random)
+	forceExec *uint64
+	addrPat   int
+}
+
+// address patterns of LDS / FLAT records: which slot (unit of the access size) lane l addresses
+const (
+	patRandom = iota
+	patUnit          // lane l -> slot l
+	patInteriorPerm  // unit stride, the interior lanes permuted (lanes 0 and 63 keep their slots)
+	patDisplaced     // unit stride, one interior lane moved to another slot
+	patSwappedPairs  // unit stride, lanes 2j+1 and 2j+2 exchanged (ends fixed)
+	patSame          // every lane the same slot (loads only)
+	patReverse       // lane l -> slot 63-l
+	patInterleaved   // even lanes slots 0..31, odd lanes slots 32..63 (ends as for unit stride)
+	patCount
+)
+
+func (g *gen) slotPattern(pat, nslots int, store bool) []int {
+	sl := make([]int, nLane)
+	for l := range sl {
+		sl[l] = l
+	}
+	switch pat {
+	case patInteriorPerm:
+		p := g.r.Perm(nLane - 2)
+		for l := 1; l < nLane-1; l++ {
+			sl[l] = 1 + p[l-1]
+		}
+	case patDisplaced:
+		l := 1 + g.r.Intn(nLane-2)
+		if nslots > nLane {
+			sl[l] = nLane + g.r.Intn(nslots-nLane)
+		} else {
+			m := 1 + g.r.Intn(nLane-2)
+			for m == l {
+				m = 1 + g.r.Intn(nLane-2)
+			}
+			sl[l], sl[m] = sl[m], sl[l]
+		}
+	case patSwappedPairs:
+		for l := 1; l+1 < nLane-1; l += 2 {
+			sl[l], sl[l+1] = sl[l+1], sl[l]
+		}
+	case patSame:
+		if !store {
+			k := g.r.Intn(nLane)
+			for l := range sl {
+				sl[l] = k
+			}
+		}
+	case patReverse:
+		for l := range sl {
+			sl[l] = nLane - 1 - l
+		}
+	case patInterleaved:
+		for l := range sl {
+			sl[l] = l/2 + (l%2)*(nLane/2)
+		}
+	}
+	return sl
+}
+
+func (g *gen) pickExec() uint64 {
+	if g.forceExec != nil {
+		return *g.forceExec
+	}
+	return g.execMask(g.r.Intn(6))
 }
 
 func (g *gen) newCase(arch, st string, d opDef) *Case {
@@ -674,8 +742,8 @@ func (g *gen) genVector(arch, st string, d opDef, pl plan) *Case {
 	rk := pl.rk
 	pl.nops = nEnum(d)
 	pl.carry = has(d.flag, "vccin") || (d.tmpl == "vop3b" && d.cw == 64)
-	c.EXEC = g.execMask(g.r.Intn(6))
-	if rk >= 0 {
+	c.EXEC = g.pickExec()
+	if rk >= 0 && g.forceExec == nil {
 		c.EXEC = ^uint64(0) // corner cross-product records: every lane carries a combination
 	}
 	isF := strings.ContainsAny(d.vt, "fdp")
@@ -891,7 +959,7 @@ func (g *gen) wildLDS() uint64 { return uint64(0x7fff0000 + g.r.Intn(4096)*4) }
 
 func (g *gen) genDS(arch, st string, d opDef, rk int) *Case {
 	c := g.newCase(arch, st, d)
-	c.EXEC = g.execMask(g.r.Intn(6))
+	c.EXEC = g.pickExec()
 	c.LDS = make([]byte, ldsSize)
 	g.r.Read(c.LDS)
 	two := d.tmpl == "ds_w2" || d.tmpl == "ds_r2"
@@ -907,6 +975,10 @@ func (g *gen) genDS(arch, st string, d opDef, rk int) *Case {
 	lo, window := 0, elem // lane touches [addr+lo, addr+lo+window)
 	if two {
 		off0, off1 = g.r.Intn(4), g.r.Intn(4)
+		if g.addrPat != patRandom {
+			off0 = g.r.Intn(2) // keeps 64 windows inside the LDS
+			off1 = 1 - off0
+		}
 		if off1 == off0 {
 			off1 = (off0 + 1) % 4
 		}
@@ -922,15 +994,26 @@ func (g *gen) genDS(arch, st string, d opDef, rk int) *Case {
 		case 1:
 			off0 = 256 + g.r.Intn(300) // needs OFFSET1 as the high byte of the 16-bit offset
 		}
+		if g.addrPat != patRandom && off0 > ldsSize-nLane*elem {
+			off0 = ldsSize - nLane*elem
+		}
 		lo = off0
 	}
 	first := 0
 	nslots := (ldsSize - lo - first) / window
 	used := 0
 	addrs := make([]uint64, nLane)
+	var pattern []int
+	if g.addrPat != patRandom && nslots >= nLane {
+		pattern = g.slotPattern(g.addrPat, nslots, isWrite)
+	}
 	for _, l := range g.r.Perm(nLane) {
 		if c.EXEC&(1<<uint(l)) == 0 {
 			addrs[l] = g.wildLDS()
+			continue
+		}
+		if pattern != nil {
+			addrs[l] = uint64(first + pattern[l]*window)
 			continue
 		}
 		if isWrite && used >= nslots {
@@ -980,7 +1063,7 @@ func (g *gen) genDS(arch, st string, d opDef, rk int) *Case {
 
 func (g *gen) genFlat(arch, st string, d opDef, rk int) *Case {
 	c := g.newCase(arch, st, d)
-	c.EXEC = g.execMask(g.r.Intn(6))
+	c.EXEC = g.pickExec()
 	c.Mem = make([]byte, memSize)
 	g.r.Read(c.Mem)
 	c.MBase = (g.r.Uint64() & 0x0000fffffffff000) | 0x2000
@@ -1026,6 +1109,11 @@ func (g *gen) genFlat(arch, st string, d opDef, rk int) *Case {
 	sbase := c.MBase - uint64(g.r.Intn(1<<20)) - 5000
 	used := 0
 	addrs := make([]uint64, nLane)
+	var pattern []int
+	if g.addrPat != patRandom {
+		pattern = g.slotPattern(g.addrPat, nslots, isStore)
+	}
+	winBase := c.MBase + uint64(g.r.Intn(nslots-nLane+1)*size)
 	for _, l := range g.r.Perm(nLane) {
 		active := c.EXEC&(1<<uint(l)) != 0
 		if active && isStore && used >= nslots {
@@ -1035,6 +1123,17 @@ func (g *gen) genFlat(arch, st string, d opDef, rk int) *Case {
 		var target uint64
 		if !active {
 			target = 0x00007abc00000000 + uint64(g.r.Intn(1<<20))*4 // unmapped: any access panics
+		} else if pattern != nil {
+			sl := pattern[l]
+			if sl >= nLane { // a displaced lane: any slot of the window outside the 64 unit-stride slots
+				sl = (int(winBase-c.MBase)/size + nLane + sl) % nslots
+				for uint64(sl*size) >= winBase-c.MBase && uint64(sl*size) < winBase-c.MBase+uint64(nLane*size) {
+					sl = (sl + 1) % nslots
+				}
+				target = c.MBase + uint64(sl*size)
+			} else {
+				target = winBase + uint64(sl*size)
+			}
 		} else {
 			s := used
 			if !isStore && used > 0 {
@@ -1139,6 +1238,8 @@ func (g *gen) genC03(scale int, only map[string]bool) {
 						}
 						g.cases = append(g.cases, g.one(arch, st, d, -1, -1, -1))
 					}
+					g.memPatterns(arch, d, false)
+					g.execSweep(arch, d)
 					continue
 				}
 				carry := has(d.flag, "vccin") || (d.tmpl == "vop3b" && d.cw == 64)
@@ -1193,6 +1294,7 @@ func (g *gen) genC03(scale int, only map[string]bool) {
 				for k := 0; k < 3*scale; k++ {
 					emit(plan{rk: -1, kind: autoKinds})
 				}
+				g.execSweep(arch, d)
 			} else {
 				pa, pb := poolLen(vtAt(d, 0)), poolLen(vtAt(d, 1))
 				var pairs [][2]int
@@ -1261,6 +1363,69 @@ func (g *gen) genC03(scale int, only map[string]bool) {
 					g.cases = append(g.cases, g.one(arch, st, d, -1, -1, -1))
 				}
 			}
+		}
+	}
+}
+
+// execSweep: empty EXEC, single lanes (0, 63, a middle one), only the low / only the high half, with stale
+// non-zero contents in VCC and the scalar destinations: the scalar results of vector instructions (compare and
+// carry masks, v_readfirstlane) must be produced whatever EXEC is.
+func (g *gen) execSweep(arch string, d opDef) {
+	masks := []uint64{0, 1, 1 << 63, 1 << uint(1+g.r.Intn(62)), 0x00000000ffffffff, 0xffffffff00000000}
+	for k, m := range masks {
+		mm := m
+		g.forceExec = &mm
+		st := "emu"
+		if k%3 == 2 {
+			st = "timing"
+		}
+		c := g.one(arch, st, d, -1, -1, -1)
+		g.forceExec = nil
+		c.Tag = "exec"
+		if c.VCC == 0 {
+			c.VCC = g.r.Uint64() | 1<<63 | 1
+		}
+		g.cases = append(g.cases, c)
+	}
+}
+
+// memPatterns: structured per-lane address vectors for LDS / FLAT instructions (see slotPattern), with every
+// lane active and under seeded masks; twins = also emit the lane-permuted twin (C06).
+func (g *gen) memPatterns(arch string, d opDef, twins bool) {
+	emit := func(c *Case) {
+		c.Tag = "addr"
+		g.cases = append(g.cases, c)
+		if twins {
+			perm := g.r.Perm(nLane)
+			for perm[0] == 0 || perm[nLane-1] == nLane-1 {
+				perm = g.r.Perm(nLane)
+			}
+			t := permuteCase(c, perm, g.nextID)
+			g.nextID++
+			g.cases = append(g.cases, t)
+		}
+	}
+	full := ^uint64(0)
+	cnt := 0
+	for pat := patUnit; pat < patCount; pat++ {
+		for _, masked := range []bool{false, true} {
+			if masked && !(pat == patUnit || pat == patInteriorPerm || pat == patInterleaved) {
+				continue
+			}
+			g.addrPat = pat
+			m := full
+			if masked {
+				m = g.r.Uint64() | g.r.Uint64()
+			}
+			g.forceExec = &m
+			st := "emu"
+			if cnt%4 == 3 {
+				st = "timing"
+			}
+			cnt++
+			c := g.one(arch, st, d, -1, -1, -1)
+			g.addrPat, g.forceExec = patRandom, nil
+			emit(c)
 		}
 	}
 }
@@ -1485,6 +1650,9 @@ func (g *gen) genC06(scale int, only map[string]bool) {
 				t := permuteCase(c, perm, g.nextID)
 				g.nextID++
 				g.cases = append(g.cases, t)
+			}
+			if d.f == "DS" || d.f == "FLAT" {
+				g.memPatterns(arch, d, true)
 			}
 			// neighbouring lanes with confusable values (see genNbr): targets state carried from lane to lane
 			if d.f != "DS" && d.f != "FLAT" && d.tmpl != "vop1s" {
